@@ -472,15 +472,17 @@ var c17FilterSites = []string{"{{ xs|N }}", "{{ xs|N|length }}", "{{ xs|reverse|
 	"{% for i in xs|N|reverse %}{{ i }}{% else %}none{% endfor %}", "{% for i in xs|reverse|N %}{{ i }}{% else %}none{% endfor %}", "a{% apply N %}x{% endapply %}c", "{{ max(1, n|N) }}", "{{ nope|default(xs|N) }}",
 	"{% include 'leaf' with {'v': xs|N} %}", "{% macro m(x) %}{{ x|N }}{% endmacro %}{{ m(s) }}", "{{ (xs|N) ? 'a' : 'b' }}", "{{ [xs|N]|length }}", "a{% do xs|N %}b", "a{% do 1 + (n|N) %}b",
 	// an apply block whose body renders nothing
-	"a{% apply N %}{% endapply %}c", "a{% apply N %} {% endapply %}c", "a{% apply N %}{% if false %}x{% endif %}{% endapply %}c", "a{% apply N %}{{ nope }}{% for i in [] %}x{% endfor %}{% endapply %}c", "a{% apply upper|N %}{% endapply %}c"}
+	"a{% apply N %}{% endapply %}c", "a{% apply N %} {% endapply %}c", "a{% apply N %}{% if false %}x{% endif %}{% endapply %}c", "a{% apply N %}{{ nope }}{% for i in [] %}x{% endfor %}{% endapply %}c", "a{% apply upper|N %}{% endapply %}c",
+	// constructs whose body renders nothing: the condition or sequence is evaluated all the same
+	"a{% if xs|N %}{% endif %}b", "a{% if false %}x{% elseif xs|N %}{% endif %}b", "a{% if xs|N %}{# note #}{% endif %}b", "a{% for i in xs|N %}{% endfor %}b", "a{% if xs|N %}{% else %}{% endif %}b"}
 var c17FunctionSites = []string{"{{ N(xs) }}", "{{ N(1, 3) }}", "{{ N(xs)|length }}", "{% set v = N(xs) %}[{{ v }}]", "{% if N(xs) %}y{% else %}n{% endif %}", "{% for i in N(xs) %}{{ i }}{% else %}none{% endfor %}",
 	"{% for i in N(1, 3) %}{{ i }}{% else %}none{% endfor %}", "{% for i in N(xs)|reverse %}{{ i }}{% else %}none{% endfor %}", "{{ nope|default(N(xs)) }}", "{% include 'leaf' with {'v': N(xs)} %}",
-	"{% macro m(x) %}{{ x }}{% endmacro %}{{ m(N(xs)) }}", "{{ N(xs) ? 'a' : 'b' }}", "{{ [N(xs)]|length }}", "{% for i in xs %}{{ N(i, 2) }}{% endfor %}", "{% apply upper %}{{ N(xs) }}{% endapply %}", "a{% do N(xs) %}b"}
+	"{% macro m(x) %}{{ x }}{% endmacro %}{{ m(N(xs)) }}", "{{ N(xs) ? 'a' : 'b' }}", "{{ [N(xs)]|length }}", "{% for i in xs %}{{ N(i, 2) }}{% endfor %}", "{% apply upper %}{{ N(xs) }}{% endapply %}", "a{% do N(xs) %}b", "a{% if N(xs) %}{% endif %}b", "a{% if false %}x{% elseif N(xs) %}{# c #}{% endif %}b", "a{% for i in N(xs) %}{% endfor %}b"}
 var c17TestSites = []string{"{{ n is N ? 'a' : 'b' }}", "{{ n is N(2) ? 'a' : 'b' }}", "{{ n is not N ? 'a' : 'b' }}", "{% if n is N %}y{% else %}n{% endif %}", "{% if n is N(2) %}y{% else %}n{% endif %}", "{% set v = n is N %}[{{ v }}]",
-	"{% for i in xs %}{% if i is N %}y{% endif %}{% endfor %}", "{% for i in (n is N) ? xs : [] %}{{ i }}{% else %}none{% endfor %}", "a{% do n is N %}b", "a{% do n is not N(2) %}b"}
+	"{% for i in xs %}{% if i is N %}y{% endif %}{% endfor %}", "{% for i in (n is N) ? xs : [] %}{{ i }}{% else %}none{% endfor %}", "a{% do n is N %}b", "a{% do n is not N(2) %}b", "a{% if n is N %}{% endif %}b", "a{% if false %}x{% elseif n is N %}{% endif %}b"}
 
 func TestC17Overrides(t *testing.T) {
-	r := NewRec(t, "C17", "exhaustive: every built-in filter (31), function (13) and test (15) name re-registered by the user with a failing callback and used in 22 / 16 / 10 positions (print, chain positions, set, if, for sequence bare and in chains, apply tag, do tag, arguments, include-with, macro, conditional, list element), plus the tags that apply a filter on their own; non-trivial = the failing callback was invoked")
+	r := NewRec(t, "C17", "exhaustive: every built-in filter (31), function (13) and test (15) name re-registered by the user with a failing callback and used in 27 / 19 / 12 positions (print, chain positions, set, if, for sequence bare and in chains, apply tag, do tag, arguments, include-with, macro, conditional, list element), plus the tags that apply a filter on their own; non-trivial = the failing callback was invoked")
 	defer r.Flush()
 	r.SetExhaustive()
 	cases := []C17OverrideCase{
@@ -520,7 +522,7 @@ func TestC17Overrides(t *testing.T) {
 
 // TestC17Unknown: the same sites with a name nothing is registered under.
 func TestC17Unknown(t *testing.T) {
-	r := NewRec(t, "C17", "exhaustive: an unregistered filter / function / test name in each of the 22 / 16 / 10 sites of TestC17Overrides; oracle: Render returns an error and no output; all cases non-trivial")
+	r := NewRec(t, "C17", "exhaustive: an unregistered filter / function / test name in each of the 27 / 19 / 12 sites of TestC17Overrides; oracle: Render returns an error and no output; all cases non-trivial")
 	defer r.Flush()
 	r.SetExhaustive()
 	for kind, sites := range map[string][]string{"filter": c17FilterSites, "function": c17FunctionSites, "test": c17TestSites} {
@@ -594,6 +596,8 @@ type C17LoaderCase struct {
 	Ctx  Ctx    `json:"ctx"`
 	Set  TSet   `json:"set"`
 	Main string `json:"main"`
+	// Chain: the two loaders are handed to the engine as one ChainLoader instead of one by one
+	Chain bool `json:"chain,omitempty"`
 }
 
 func checkC17Loader(c C17LoaderCase) error {
@@ -601,6 +605,12 @@ func checkC17Loader(c C17LoaderCase) error {
 	mk := func(failAt int) (*twig.Engine, *spyLoader) {
 		e := twig.New()
 		l := &spyLoader{tmpls: srcs, failAt: failAt}
+		if c.Chain {
+			e.RegisterLoader(twig.NewChainLoader([]twig.Loader{l, twig.NewArrayLoader(map[string]string{"unrelated": "u"})}))
+			e.EnableSandbox(allowAll{})
+			NewSpies().Install(e)
+			return e, l
+		}
 		e.RegisterLoader(l)
 		// a second loader that simply does not have the templates: its "not found" must
 		// not mask the first loader's failure
@@ -761,7 +771,7 @@ func TestC17Loaders(t *testing.T) {
 			sc = SetCase{Ctx: c.Ctx, Set: c12Set(c, rapid.SampledFrom([]string{"import", "from", "alias"}).Draw(rt, "form")), Main: "main"}
 			kind = "import"
 		}
-		c := C17LoaderCase{Ctx: sc.Ctx, Set: sc.Set, Main: sc.Main}
+		c := C17LoaderCase{Ctx: sc.Ctx, Set: sc.Set, Main: sc.Main, Chain: rapid.IntRange(0, 2).Draw(rt, "chainloader") == 0}
 		srcs := c.Set.Sources(SPrint{})
 		r.Case(showSources(srcs), len(sc.Set) >= 2, srcs, "structure:"+kind)
 		if err := checkC17Loader(c); err != nil {
